@@ -566,7 +566,6 @@ example : Gen.Schemas.c_LINE.plans.length ≥ 1 ∧
   [some (some (.int 3), some (.str [48]), some (.pt 1 2 3), none, some (.pt 0 0 0))]
 
 /-- (class, attribute) pairs that are exported for an older version but not for a newer one:
-    * DIMSTYLE dimpost / dimapost: missing from EXPORT_MAP_R2007 (known finding F12, C01/dimstyle);
     * DIMSTYLE dimblk / dimblk1 / dimblk2: names in DXF R12, `*_handle` attributes from R2000 on
       (`set_handles` / `post_load_hook`), not a loss;
     * BODY, REGION, 3DSOLID, SURFACE and its four subclasses `version`: the modeler format version number
@@ -574,15 +573,15 @@ example : Gen.Schemas.c_LINE.plans.length ≥ 1 ∧
     * DIMENSION defpoint4 / defpoint5 / leader_length: DXF R12 exports the union of all dimension
       types in one flat list, R2000+ exports the subclass of the actual `dimtype` only. -/
 def monoExceptions : List (Name × Name) :=
-  [(enc "DIMSTYLE", enc "dimpost"), (enc "DIMSTYLE", enc "dimapost"),
-   (enc "DIMSTYLE", enc "dimblk"), (enc "DIMSTYLE", enc "dimblk1"), (enc "DIMSTYLE", enc "dimblk2"),
+  [(enc "DIMSTYLE", enc "dimblk"), (enc "DIMSTYLE", enc "dimblk1"), (enc "DIMSTYLE", enc "dimblk2"),
    (enc "DIMENSION", enc "defpoint4"), (enc "DIMENSION", enc "defpoint5"), (enc "DIMENSION", enc "leader_length"),
    (enc "BODY", enc "version"), (enc "REGION", enc "version"), (enc "3DSOLID", enc "version"),
    (enc "SURFACE", enc "version"), (enc "EXTRUDEDSURFACE", enc "version"), (enc "LOFTEDSURFACE", enc "version"),
    (enc "REVOLVEDSURFACE", enc "version"), (enc "SWEPTSURFACE", enc "version")]
 
 /-- **export_version_monotone**: an attribute handed to `export_dxf_attribs` for a version `v ≥` its
-    `dxfversion` is handed over for every later version too, the listed pairs excepted. -/
+    `dxfversion` is handed over for every later version too, the listed pairs excepted (none of them is a loss;
+    the former exception DIMSTYLE dimpost / dimapost = finding F12 is fixed in /repo, commit 64eac7204). -/
 theorem export_version_monotone :
     Gen.Schemas.classes.all (fun c =>
       (monoViolations c).all (fun v => monoExceptions.contains (c.dxftype, v.1))) = true := by
